@@ -53,24 +53,25 @@ CHECKS = {'C01': {'text': 'Lean theorems about an interleaving transition system
                  'overlap/second-thread oracle on explored schedules (300 quick / 7000 thorough). Assumes each caller thread issues its calls '
                  'through one context; replies, removal, disconnects, lock requests are out of this model (C01/C04).',
          'technique': 'Lean 4 proof (inductive invariant over an interleaving pipeline model) + trace refinement under a deterministic scheduler'},
- 'C04': {'text': 'Lean theorems over every system state (any number of context instances incl. same-named, proxies, tokens) and, by induction, every '
-                 'finite history: gen_eq_spec_partial/_of_fix (generated lock table = reference for all token values), gen_no_other_crash, '
-                 'guard_eq_spec, single_owner, lock_free_object, only_owner_executes(+_history), refused_without_executing, owner_gets_through, '
-                 'count_changes_only_by_execution, release_only_by_owner_or_force(+_history), is_locked_truthful, '
-                 'lock_requests_total_partial/_of_fix, no_hang_without_force_on_unlocked, nb_token_in_sync, auto_tokens_distinct_partial, '
-                 'only_holder_executes_partial; negation witnesses gen_eq_spec_false, lock_requests_total_false, auto_tokens_distinct_false, '
-                 'lock_granted_means_owner_false. Gen/LockFsm.lean is regenerated every run by executing the real '
+ 'C04': {'text': 'Lean theorems at full strength over every system state (any number of context instances incl. same-named ones, proxies, tokens) '
+                 'and, by induction, every finite history: gen_eq_spec (generated lock table = reference for all token values, no cell crashes), '
+                 'guard_eq_spec, single_owner, lock_free_object, lock_granted_means_owner, reserved_token_refused, only_owner_executes(+_history), '
+                 'refused_without_executing, owner_gets_through, count_changes_only_by_execution, release_only_by_owner_or_force(+_history), '
+                 'is_locked_truthful, lock_requests_total, never_hangs, nb_token_in_sync, mkToken_injective, auto_tokens_distinct, '
+                 'only_holder_executes. Gen/LockFsm.lean is regenerated every run by executing the real '
                  '_handle_lock_rpc_request/_handle_method_rpc_request on a stub thread for every (action, state, token relation) cell; 400 random '
                  'histories (quick) + exhaustive cell sweep on real QMI_Context instances over loopback TCP, diffed with the model driver and judged '
-                 'by an independent ideal-lock oracle.',
-         'note': 'Full statements gen_eq_spec, lock_requests_total, auto_tokens_distinct, lock_granted_means_owner are FALSE on the pinned tree (3 '
-                 'root causes: force_unlock of an unlocked object kills the worker; same-named client contexts share automatic tokens; denied lock '
-                 'with the ACCESS_DENIED placeholder reported as granted); proved in _partial form + negation witness. Trusted: translator (tokens '
-                 'only compared — checked with randomised tokens), proxy-side model and mkToken tied by correspondence only, message transport '
-                 'exercised not verified, lock(timeout>0) not modelled, sequential histories, in-process same-named contexts stand for separate '
-                 'processes.',
+                 'by an independent ideal-lock oracle; 2-4 concurrent threads under the deterministic scheduler with line-level yield points in '
+                 'make_unique_token (weighted/pct policies, change-point sweeps), worker request log replayed on the model.',
+         'note': 'No open finding. Fixed in /repo: 5177c53 (force_unlock of an unlocked object killed the worker), 93903ab (same-named client '
+                 'contexts shared automatic tokens), 51f8317 (ACCESS_DENIED placeholder as custom token reported a denied lock as granted); each '
+                 'reverted fix is re-found as a new violation. Assumed, not proved: identifiers os.urandom gives to distinct context instances '
+                 "differ (hypothesis of auto_tokens_distinct / only_holder_executes); no custom token deliberately imitates '$lock_<id>_<n>'. "
+                 'Trusted: translator (tokens only compared - checked with randomised tokens), proxy-side model and mkToken tied by correspondence '
+                 'only, atomicity of make_unique_token and of one worker request checked over schedules not proved, message transport exercised not '
+                 'verified, lock(timeout>0) not modelled.',
          'technique': 'Lean 4 proof (generated finite table + inductive invariants over op histories) + executing translator + differential '
-                      'correspondence on real contexts + ideal-lock oracle'},
+                      'correspondence on real contexts + schedule exploration with trace refinement + ideal-lock oracle'},
  'C05': {'text': 'Lean theorems over every class table (MRO of member tables name↦kind + instance dict) and every name (all strings via an injective '
                  'encoding, proved), for the repaired dispatcher (static lookup, b296ced). For EVERY class: rejected_runs_nothing, '
                  'effects_only_call, invokable_iff_advertised_of_unshadowed, absent_name_rejected, protected_names_never_advertised, '
